@@ -55,7 +55,8 @@ def table() -> dict[str, Prop]:
              not_decided="the interleaving semantics itself (decided is: no shared write exists that an interleaving could expose)"))
     reg(Prop("C14", "parse/render write per-call objects only, so unwinding from any callback has nothing to undo (EFF); every "
              "@contextmanager runs its post-yield code on the exceptional edge too, and no class-based context manager's __exit__ "
-             "returns a truthy value (CTXMGR)",
+             "returns a truthy value (CTXMGR); reset_rules puts the flags back through enableOnly on all four rulers (FANOUT) and a "
+             "ruler never serves a chain compiled before its flags were last written (CACHE)",
              [EF.rule_eff, RR.rule_ctxmgr],
              not_decided="equality of results before and after the failed call (follows from the absence of writes; not separately shown)"))
     reg(Prop("C15", "the render phase's only write to a stream token is the image alt attribute, recomputed from the token's own "
@@ -168,7 +169,8 @@ def table() -> dict[str, Prop]:
              not_decided="literalness in each of the seven inline contexts for every text t (behaviour of the inline rules on runtime "
                          "strings), in particular the escape handling inside link titles / destinations"))
     from .rules import switch_rules as SW
-    reg(Prop("C10", "switch discipline: compiled chains contain exactly the enabled rules filtered by chain (CHAIN); token kind -> "
+    reg(Prop("C10", "switch discipline: compiled chains contain exactly the enabled rules filtered by chain (CHAIN) and are never served "
+             "after a flag changed (CACHE); token kind -> "
              "producing rules equals the reviewed table, rule functions are reached only through dispatch, and the zero preset can "
              "only produce paragraph / text (PRODUCERS); html kinds are pushed only under a true test of option html (RAW); the "
              "facade applies each rule-management request to all four rulers with the same names (FANOUT); item access, attribute "
@@ -232,6 +234,8 @@ def table() -> dict[str, Prop]:
     props["C03"].rules.append(TT.rule_unisplit)        # lines are split at LF only (no Unicode-aware splitlines on the source)
     props["C17"].rules.append(TT.rule_unisplit)
     props["C11"].rules.append(SW.rule_fanout)          # the same coherence through the facade
+    props["C10"].rules.append(RR.rule_cache)           # a stale compiled chain keeps running a rule that was switched off
+    props["C14"].rules.append(RR.rule_cache)           # ... and makes the restored flags of reset_rules ineffective
     props["C14"].rules.append(RR.rule_swallow)         # an exception from user code propagates
     props["C14"].rules.append(SW.rule_fanout)          # reset_rules restores all four rulers with enableOnly
     props["C08"].rules.append(PL.rule_oneline)         # raw source slices never span lines
